@@ -15,9 +15,11 @@ package py
 //@ func (Float).M__floordiv__(a, other) (r, err)
 //@   ensures zero: is(other, Int) && den(other) == 0 ==> raisesExc(err, ZeroDivisionError)
 //@   ensures fzero: is(other, Float) && other.(Float) == fconst(0) ==> raisesExc(err, ZeroDivisionError)
+//@   ensures nn: err == nil ==> r != nil
 
 //@ func (Float).M__rfloordiv__(a, other) (r, err)
 //@   ensures zero: (is(other, Int) || is(other, Float)) && a == fconst(0) ==> raisesExc(err, ZeroDivisionError)
+//@   ensures nn: err == nil ==> r != nil
 
 //@ func floatDivMod(a, b) (q, m, err)
 //@   ensures zero: b == fconst(0) ==> raisesExc(err, ZeroDivisionError)
